@@ -342,6 +342,19 @@ CONST_ITEMS = [
     ("src/concat/mod.rs", "NUM_STREAM_HEADER_BYTES", None),
     ("src/enc/entropy_encode.rs", "MAX_HUFFMAN_BITS", None),
     ("src/enc/fixed_queue.rs", "MAX_THREADS", None),
+    ("src/enc/constants.rs", "kZeroRepsBits", None),
+    ("src/enc/constants.rs", "kZeroRepsDepth", None),
+    ("src/enc/constants.rs", "kNonZeroRepsBits", None),
+    ("src/enc/constants.rs", "kNonZeroRepsDepth", None),
+    ("src/enc/constants.rs", "kStaticCommandCodeDepth", None),
+    ("src/enc/constants.rs", "kStaticCommandCodeBits", None),
+    ("src/enc/constants.rs", "kStaticDistanceCodeDepth", None),
+    ("src/enc/constants.rs", "kStaticDistanceCodeBits", None),
+    ("src/enc/brotli_bit_stream.rs", "kStorageOrder", None),
+    ("src/enc/brotli_bit_stream.rs", "kHuffmanBitLengthHuffmanCodeSymbols", None),
+    ("src/enc/brotli_bit_stream.rs", "kHuffmanBitLengthHuffmanCodeBitLengths", None),
+    ("src/enc/entropy_encode.rs", "gaps", "kShellGaps"),
+    ("src/enc/entropy_encode.rs", "kLut", "kReverseLut"),
 ]
 
 # functions whose integer literals (in source order) are harvested as a list
